@@ -14,6 +14,12 @@ from .astutil import SCOPE_TYPES, attr_chain, norm, walk_shallow
 from .loader import Undecided
 
 CATCH_ALL_NAMES = ("BaseException",)
+NORETURN_CALLS = ("reraise", "sys.exit", "os._exit", "compat.reraise")
+
+
+def dotted_name(expr):
+    ch = attr_chain(expr)
+    return ".".join(ch) if ch else None
 
 
 def expr_may_raise(expr, attr_may_raise=False):
@@ -343,6 +349,11 @@ class Builder:
             raise Undecided(f"try/except* at line {s.lineno} not modelled")
         if isinstance(s, ast.Match):
             raise Undecided(f"match statement at line {s.lineno} not modelled")
+        if isinstance(s, ast.Expr) and isinstance(s.value, ast.Call) and dotted_name(s.value.func) in NORETURN_CALLS:
+            # helpers that always raise (testtools.compat.reraise, sys.exit)
+            n = self.new("raise", s)
+            self._exc_edge(n, ctx)
+            return n
         # simple statements (incl. nested defs, which are just bindings)
         n = self.new("stmt", s)
         if stmt_may_raise(s, self.attr_may_raise):
